@@ -459,13 +459,13 @@ type run struct {
 	kind  string
 	dirty bool // a mutating step since the last explicit Flush or reopen
 	// bookkeeping for the non-triviality rule and the labels
-	deleted         map[string]bool
-	ntUnflushed     bool
-	ntRecreate      bool
-	reopens         int
-	reopenEmpty     bool
-	adminDeleted    bool
-	lists, reads    int
+	deleted          map[string]bool
+	ntUnflushed      bool
+	ntRecreate       bool
+	reopens          int
+	reopenEmpty      bool
+	adminDeleted     bool
+	lists, reads     int
 	maskFile, maskDB string
 }
 
@@ -1105,7 +1105,7 @@ func TestC31(t *testing.T) {
 		Gen:      gen,
 		Oracle:   oracle,
 		Fixed:    fixed,
-		Quick:    250,
-		Thorough: 6000,
+		Quick:    100,
+		Thorough: 2000,
 	})
 }
